@@ -47,7 +47,10 @@ def run_demo(d, demo, timeout=600):
             env.pop(k)
     cmd = [PY, demo] if not os.path.basename(demo).startswith("test_") and not demo.endswith("_test.py") else \
         [PY, "-m", "pytest", "-q", "-p", "no:cacheprovider", demo]
-    r = subprocess.run(cmd, env=env, capture_output=True, text=True, timeout=timeout, cwd=d)
+    for _attempt in range(3):
+        r = subprocess.run(cmd, env=env, capture_output=True, text=True, timeout=timeout, cwd=d)
+        if r.returncode not in (-6, 134):      # pyarrow can abort() during interpreter finalisation: retry
+            break
     return r.returncode, (r.stdout + r.stderr)[-1500:]
 
 
